@@ -357,7 +357,6 @@ static void do_rec(vf_case *c) {
 	if (IS("bn_rec_jsf")) { /* args k, l */
 		mpz_set(zb, c->v[1]); vf_bn_set(B, zb); mpz_abs(zu, zb);
 		size_t bk = bits, bl = mpz_sgn(zb) ? mpz_sizeinbase(zb, 2) : 0, mx = bk > bl ? bk : bl;
-		if (bl > bk) return; /* documented buffer bound is expressed in bits(k): callers pass the longer scalar first */
 		size_t len = 2 * (mx + 1), cap = len, off = mx + 1;
 		memset(nb, GUARD, sizeof nb);
 		VF_TRY(th, bn_rec_jsf(nb + 8, &len, A, B));
@@ -565,7 +564,7 @@ static void enumerate(void) {
 				K.op = "bn_rec_reg"; K.n = 3; mpz_set(K.v[0], a); mpz_set_si(K.v[1], w); mpz_set_si(K.v[2], 16); vf_run(&K); mpz_set_si(K.v[2], 17); vf_run(&K);
 				if (x < 4096 || x % 7 == 0) for (int u = 0; u < 2; u++) { K.op = "bn_rec_tnaf"; K.n = 4; mpz_set(K.v[0], a); mpz_set_si(K.v[1], w); mpz_set_si(K.v[2], u); mpz_set_si(K.v[3], 17); vf_run(&K); }
 			}
-			if (x < 1024) for (long y = 0; y <= x; y++) { mpz_set_si(b, y); r2("bn_rec_jsf", a, b); }
+			if (x < 1024) for (long y = 0; y < 1024; y += (y <= x ? 1 : 37)) { mpz_set_si(b, y); r2("bn_rec_jsf", a, b); }
 		}
 		/* long scalars: alphabet values, runs of ones/zeros */
 		for (int i = 0; i < pos.n && !vf_expired(); i++) if (vf_mine()) for (long w = 2; w <= 8; w++) {
